@@ -131,8 +131,24 @@ theorem spec_run_live (sch : Levels) {db dbN : Engine.DB} {sdb sdbN : Spec.SDB} 
     intro pt tbls hA
     obtain ⟨sdb0, habs, hv⟩ := hA
     obtain ⟨sdb0', hspec0, hv'⟩ := specUpdate_congr hv table sets w hspec
-    obtain ⟨db', t', logs, stmts1, e, hw, hlive, habs'⟩ := evalUpdate_live db pt sch tbls sdb0 sdb0' habs
-      table sets w hvalid hspec0
+    -- the engine accepted the statement, so its test of the SET columns passed
+    have hset : ∀ schema, schemaOf sch table = some schema →
+        Engine.checkSetColumns (schema.map fun fd => (⟨[], fd.name.toUTF8.toList⟩ : Exec.Field)) []
+          (sets.map (·.1)) = none := by
+      intro schema hsch
+      obtain ⟨st, hfind⟩ : ∃ st, Spec.findTable sdb0 table = some st := by
+        rw [specUpdate_eq] at hspec0
+        cases hf : Spec.findTable sdb0 table with
+        | none => rw [hf] at hspec0; cases hspec0
+        | some st => exact ⟨st, rfl⟩
+      obtain ⟨t, ht⟩ := habs.tabs.find_some hfind
+      obtain ⟨schema', hsch', hdec, _⟩ := habs.tabs.find habs.cat.tnames ht
+      rw [hsch] at hsch'
+      simp only [Option.some.injEq] at hsch'
+      subst hsch'
+      exact evalUpdate_ok_set habs.cat table t ht schema hsch hdec sets w heval
+    obtain ⟨db', t', logs, stmts1, e, hw, hlive, habs'⟩ := evalUpdate_live_set db pt sch tbls sdb0 sdb0' habs
+      table sets w hvalid hset hspec0
     rw [e] at heval
     simp only [Engine.Res.ok.injEq] at heval
     obtain ⟨_, rfl⟩ := heval
